@@ -31,6 +31,13 @@ def run_property(prop, tier, seed, model=None, quiet=False, write=True):
                     cache[rule] = rule(model)
                 except AnalysisError as e:
                     cache[rule] = e
+                except RecursionError:
+                    cache[rule] = AnalysisError('the analysis did not terminate (recursion limit)')
+                except Exception as e:      # a construct the rule was not written for: analysis broken, not a verdict
+                    import traceback
+                    tb = traceback.extract_tb(e.__traceback__)[-1]
+                    cache[rule] = AnalysisError('internal error of the rule: %s: %s (%s:%d)' % (
+                        type(e).__name__, e, tb.filename.rsplit('/', 1)[-1], tb.lineno))
             res = cache[rule]
             if isinstance(res, AnalysisError):
                 raise res
